@@ -27,11 +27,19 @@ pub struct GenOpts {
     pub ragged: bool,
     /// shuffle the order of the sections in the table (links are remapped)
     pub shuffle_sections: bool,
+    /// shapes the reference models do not cover (only for relation-based checks: stream vs slice, prefix vs full,
+    /// fault vs fault-free, walkers): second sections of the kinds that exist "at most once" (symbol tables, hashes,
+    /// .dynamic, version sections), possibly with a broken field, anywhere in the table; a .dynamic whose header was
+    /// turned into NOBITS/PROGBITS (objcopy --only-keep-debug shape) while PT_DYNAMIC still designates its bytes
+    pub unmodelled_shapes: bool,
 }
 
 impl GenOpts {
     pub fn standard() -> GenOpts {
-        GenOpts { weird_views: true, compressed: true, name_games: false, early_tables: false, max_syms: 24, density: 5, no_shdrs: false, ragged: true, shuffle_sections: true }
+        GenOpts { weird_views: true, compressed: true, name_games: false, early_tables: false, max_syms: 24, density: 5, no_shdrs: false, ragged: true, shuffle_sections: true, unmodelled_shapes: false }
+    }
+    pub fn unmodelled() -> GenOpts {
+        GenOpts { unmodelled_shapes: true, ..GenOpts::standard() }
     }
 }
 
@@ -395,6 +403,36 @@ pub fn gen_object(rng: &mut Rng, enc: Enc, o: &GenOpts) -> (ObjSpec, ObjModel) {
         }
     }
 
+    if o.unmodelled_shapes && rng.chance(1, 2) {
+        let special = [k::SHT_SYMTAB, k::SHT_DYNSYM, k::SHT_DYNAMIC, k::SHT_HASH, k::SHT_GNU_HASH, k::SHT_GNU_VERSYM, k::SHT_GNU_VERNEED, k::SHT_GNU_VERDEF];
+        for _ in 0..1 + rng.usize_below(2) {
+            let cands: Vec<usize> = (0..spec.secs.len()).filter(|i| special.contains(&spec.secs[*i].sh_type)).collect();
+            if cands.is_empty() {
+                break;
+            }
+            let src = cands[rng.usize_below(cands.len())];
+            let mut d = spec.secs[src].clone();
+            d.name.extend_from_slice(b".2");
+            if rng.bool() {
+                // a second header over the very same bytes
+                let len = d.body.len() as u64;
+                d.body = Vec::new();
+                d.place = Place::ShareStart(src + 1, len);
+            }
+            match rng.below(6) {
+                0 => d.entsize = [0u64, 1, d.entsize + 1, 0xffff][rng.usize_below(4)],
+                1 => d.link = rng.below(spec.secs.len() as u64 + 3) as u32,
+                2 => d.info = rng.below(9) as u32,
+                3 => {
+                    let l = d.body.len();
+                    d.body.truncate(rng.usize_below(l + 1));
+                }
+                _ => {}
+            }
+            spec.add(d);
+        }
+    }
+
     if o.shuffle_sections && rng.chance(2, 3) {
         permute_sections(&mut spec, &mut m, rng);
     }
@@ -429,6 +467,13 @@ pub fn gen_object(rng: &mut Rng, enc: Enc, o: &GenOpts) -> (ObjSpec, ObjModel) {
                 };
                 let p_type = [k::PT_LOAD, k::PT_NOTE, 6, 0x6474_e551][rng.usize_below(4)];
                 spec.segs.push(Seg { p_type, flags: rng.below(8) as u32, range, vaddr: rng.next_u64(), paddr: 0, memsz_extra: rng.boundary(32), align: [0u64, 1, 4, 8, 3][rng.usize_below(5)] });
+            }
+        }
+    }
+    if o.unmodelled_shapes {
+        if let (Some((idx, _)), Some(_)) = (&m.dynamic, m.dynamic_seg) {
+            if rng.chance(1, 3) {
+                spec.secs[*idx - 1].sh_type = if rng.bool() { k::SHT_NOBITS } else { k::SHT_PROGBITS };
             }
         }
     }
